@@ -82,6 +82,9 @@ type cfg struct {
 	K        int    `json:"k"`         // 1..3
 	CallerMs int    `json:"caller_ms"` // caller deadline in ms from start; 0 = none
 	DialMs   int    `json:"dial_ms"`   // mtproto level: DialTimeout in ms
+	// NotFound: number of transport-level -404 (auth key not found) frames the peer delivers before it
+	// goes silent (the client's read loop skips them and reads again: key regeneration path)
+	NotFound int `json:"not_found"`
 }
 
 type result struct {
@@ -103,6 +106,18 @@ func run(c *hx.Ctx, cf cfg) result {
 		}
 	} else {
 		h.StopReadingAt = cf.K
+	}
+	if cf.NotFound > 0 {
+		h.InjectS2C = func(i int) [][]byte {
+			if i != cf.K {
+				return nil
+			}
+			var out [][]byte
+			for j := 0; j < cf.NotFound; j++ {
+				out = append(out, []byte{0x6c, 0xfe, 0xff, 0xff}) // int32(-404), little endian
+			}
+			return out
+		}
 	}
 	l := xkit.NewLink(h)
 	defer l.Close()
@@ -190,7 +205,7 @@ func stallStart(l *xkit.Link, tc *timedConn, cf cfg) time.Time {
 	if !stalled {
 		return time.Time{}
 	}
-	return tc.opStart(cf.Dir, cf.K)
+	return tc.opStart(cf.Dir, cf.K+cf.NotFound) // every skipped -404 costs one more Recv call
 }
 
 func main() {
@@ -208,7 +223,7 @@ func main() {
 		if cf.Level == "mtproto" {
 			lvl = 1
 		}
-		c.Count(fmt.Sprintf("%s:temp=%v:pfs=%v:dir=%d:k=%d:caller=%d->returned=%v,within=%v", cf.Level, cf.Temp, cf.PFS, cf.Dir, cf.K, cf.CallerMs, r.Returned, r.Within))
+		c.Count(fmt.Sprintf("%s:temp=%v:pfs=%v:dir=%d:k=%d:notfound=%d:caller=%d->returned=%v,within=%v", cf.Level, cf.Temp, cf.PFS, cf.Dir, cf.K, cf.NotFound, cf.CallerMs, r.Returned, r.Within))
 		js := map[string]interface{}{"config": cf, "observed": r}
 		if !r.Stalled {
 			// the exchange ended before the stall point was reached: harness problem, not a finding
@@ -231,6 +246,9 @@ func main() {
 				step = fmt.Sprintf("write of client message %d", cf.K)
 			}
 			sig := fmt.Sprintf("no-timeout-dir%d-k%d", cf.Dir, cf.K)
+			if cf.NotFound > 0 {
+				sig += "-after-404"
+			}
 			how := fmt.Sprintf("returned %d ms after the step started", r.ElapsedMs)
 			if !r.Returned {
 				how = fmt.Sprintf("had not returned %v after the step started (watchdog)", watchdog)
@@ -264,13 +282,18 @@ func main() {
 			}
 		}
 	}
+	// the peer answers with transport errors -404 (skipped by the client's read loop) and then goes silent
+	for _, nf := range []int{1, 3} {
+		one(cfg{Level: "exchange", Temp: nf == 3, Dir: 1, K: 1, NotFound: nf})
+		one(cfg{Level: "exchange", Temp: nf == 1, Dir: 1, K: 1, NotFound: nf, CallerMs: 20000})
+	}
 	// connect path: mtproto.Conn.Run with and without PFS, no caller deadline, DialTimeout 20 s
 	for _, pfs := range []bool{false, true} {
 		for k := 1; k <= 3; k++ {
 			one(cfg{Level: "mtproto", PFS: pfs, Dir: 1, K: k, DialMs: 20000})
 		}
 	}
-	c.Obs.Rule = "configurations = {permanent, temporary} x {server message 1..3 withheld, client write 1..3 blocked} x {no caller deadline; in thorough and for half of the points in quick also caller deadline 20 s (> T, beyond the watchdog); 60 ms (< T) at the first step} at exchange level, plus mtproto.Conn.Run with PFS off/on x server message 1..3 withheld; non-trivial = distinct configuration whose stall point was reached"
+	c.Obs.Rule = "configurations = {permanent, temporary} x {server message 1..3 withheld, client write 1..3 blocked} x {no caller deadline; in thorough and for half of the points in quick also caller deadline 20 s (> T, beyond the watchdog); 60 ms (< T) at the first step} at exchange level, plus ResPQ read preceded by 1 or 3 transport errors -404 (skipped by the read loop) then silence, plus mtproto.Conn.Run with PFS off/on x server message 1..3 withheld; non-trivial = distinct configuration whose stall point was reached"
 	c.Finish()
 }
 
